@@ -45,8 +45,10 @@ def _synparam_at(
         # bounded selector for overbounding
         bounded_selector = 0
 
-        # retrieve most recent value
+        # retrieve most recent value, repeated for each selected delay
         res = transform(value.peek())
+        if selector.ndim > res.ndim:
+            res = res.unsqueeze(-1).expand_as(selector)
 
     # delayed access
     else:
